@@ -746,3 +746,136 @@ Proof.
   split; [vm_compute; right; left; reflexivity|]. split; [left; reflexivity|]. split; [reflexivity|].
   intros [n [[] _]].
 Qed.
+
+(* ------------------------------------------------------------------------------------------ waiting clients, all histories *)
+
+Definition none_enabled (st : state) (bl : list (N * nfilter)) : Prop :=
+  Forall (fun w => wait_enabled st (snd w) = false) bl.
+
+Definition winv (s : wsys) : Prop := good (w_state s) /\ none_enabled (w_state s) (w_blocked s).
+
+Lemma recheck_spec : forall st bl o b,
+  recheck st bl = (o, b) ->
+  none_enabled st b /\
+  (forall w, In w b -> In w bl) /\
+  (forall id f, In (id, f) bl -> wait_enabled st f = true -> In (WReturned id f (notices st f)) o) /\
+  (forall x, In x o -> exists id f, x = WReturned id f (notices st f) /\ In (id, f) bl /\ wait_enabled st f = true).
+Proof.
+  intros st. induction bl as [|[id f] bl IH]; intros o b H; cbn in H.
+  - inversion H; subst. split; [constructor|]. split; [intros ? []|]. split; [intros ? ? []|intros ? []].
+  - destruct (recheck st bl) as [o' b'] eqn:R. destruct (IH o' b' eq_refl) as [I1 [I2 [I3 I4]]].
+    destruct (wait_enabled st f) eqn:E; inversion H; subst; clear H.
+    + split; [exact I1|]. split; [intros w Hw; right; apply I2; exact Hw|]. split.
+      * intros id' f' [Heq|Hin] He; [inversion Heq; subst; left; reflexivity | right; apply I3; assumption].
+      * intros x [<-|Hx]; [exists id, f; split; [reflexivity|]; split; [left; reflexivity | exact E]|].
+        destruct (I4 x Hx) as [id' [f' [H1 [H2 H3]]]]. exists id', f'. split; [exact H1|]. split; [right; exact H2 | exact H3].
+    + split; [constructor; [exact E | exact I1]|]. split; [intros w [<-|Hw]; [left; reflexivity | right; apply I2; exact Hw]|]. split.
+      * intros id' f' [Heq|Hin] He; [inversion Heq; subst; congruence | apply I3; assumption].
+      * intros x Hx. destruct (I4 x Hx) as [id' [f' [H1 [H2 H3]]]]. exists id', f'. split; [exact H1|]. split; [right; exact H2 | exact H3].
+Qed.
+
+Lemma none_enabled_filter : forall st bl p, none_enabled st bl -> none_enabled st (List.filter p bl).
+Proof.
+  intros st bl p H. unfold none_enabled in *. rewrite Forall_forall in *. intros w Hw. apply filter_In in Hw. apply H. tauto.
+Qed.
+
+Lemma wstep_inv : persist_ok = true -> forall s e o s',
+  winv s -> wev_server_clock e = true -> wstep s e = (o, s') -> winv s'.
+Proof.
+  intros POK s e o s' [G NE] SC H. destruct e as [a|id f|id|]; cbn [wstep] in H.
+  - cbn in SC. destruct (a_time a) eqn:Ht; [discriminate|].
+    destruct (add_notice (w_state s) a) as [[[st' flag] nid]|] eqn:HA; [|inversion H; subst; split; assumption].
+    assert (G' : good st') by (apply (add_server_spec _ _ _ _ _ G Ht HA)).
+    destruct flag.
+    + destruct (recheck st' (w_blocked s)) as [o' b'] eqn:R. inversion H; subst; clear H.
+      split; [exact G' | apply (recheck_spec _ _ _ _ R)].
+    + inversion H; subst; clear H. split; [exact G'|]. cbn.
+      unfold none_enabled in *. rewrite Forall_forall in *. intros w Hw.
+      apply (no_missed_wakeup (w_state s) a st' nid (snd w) G Ht HA). apply NE. exact Hw.
+  - destruct (wait_enabled (w_state s) f) eqn:E; inversion H; subst; clear H; [split; assumption|].
+    split; [exact G|]. cbn. unfold none_enabled in *. apply Forall_app. split; [exact NE | constructor; [exact E | constructor]].
+  - destruct (is_blocked id (w_blocked s)); [|inversion H; subst; split; assumption].
+    destruct (recheck (w_state s) _) as [o' b'] eqn:R. inversion H; subst; clear H.
+    split; [exact G | apply (recheck_spec _ _ _ _ R)].
+  - inversion H; subst; clear H. split; [cbn; rewrite (restart_id POK); exact G | constructor].
+Qed.
+
+Lemma wrun_inv : persist_ok = true -> forall evs s o s',
+  winv s -> forallb wev_server_clock evs = true -> wrun s evs = (o, s') -> winv s'.
+Proof.
+  intros POK. induction evs as [|e evs IH]; intros s o s' I SC H; cbn in H; [inversion H; subst; exact I|].
+  cbn in SC. apply andb_true_iff in SC. destruct SC as [SC1 SC2].
+  destruct (wstep s e) as [o1 s1] eqn:W. destruct (wrun s1 evs) as [o2 s2] eqn:R. inversion H; subst; clear H.
+  eapply IH; [eapply (wstep_inv POK); eassumption | exact SC2 | exact R].
+Qed.
+
+Lemma winv_empty : winv empty_wsys.
+Proof. split; [apply good_empty | constructor]. Qed.
+
+(* in every reachable state no call stays blocked while a notice matching its filter exists *)
+Theorem waiters_never_miss : persist_ok = true -> forall evs o s,
+  forallb wev_server_clock evs = true -> wrun empty_wsys evs = (o, s) ->
+  forall id f, In (id, f) (w_blocked s) -> wait_enabled (w_state s) f = false.
+Proof.
+  intros POK evs o s SC H id f Hin.
+  destruct (wrun_inv POK evs _ _ _ winv_empty SC H) as [_ NE].
+  unfold none_enabled in NE. rewrite Forall_forall in NE. apply (NE (id, f) Hin).
+Qed.
+
+(* ... and whenever an addition makes a notice match the filter of a blocked call (recorded after its After time, right
+   user, type and key), that call returns during that very addition with the list Notices(filter) gives then *)
+Theorem waiter_returns_on_match : persist_ok = true -> forall evs o s a o1 s1 id f,
+  forallb wev_server_clock evs = true -> wrun empty_wsys evs = (o, s) -> a_time a = None ->
+  wstep s (WAdd a) = (o1, s1) -> In (id, f) (w_blocked s) -> wait_enabled (w_state s1) f = true ->
+  In (WReturned id f (notices (w_state s1) f)) o1 /\ ~ In (id, f) (w_blocked s1).
+Proof.
+  intros POK evs o s a o1 s1 id f SC H Ht W Hin He.
+  destruct (wrun_inv POK evs _ _ _ winv_empty SC H) as [G NE].
+  assert (Hd : wait_enabled (w_state s) f = false).
+  { unfold none_enabled in NE. rewrite Forall_forall in NE. apply (NE (id, f) Hin). }
+  cbn [wstep] in W.
+  destruct (add_notice (w_state s) a) as [[[st' flag] nid]|] eqn:HA; [|inversion W; subst; congruence].
+  destruct flag.
+  - destruct (recheck st' (w_blocked s)) as [o' b'] eqn:R. inversion W; subst; clear W. cbn in He |- *.
+    destruct (recheck_spec _ _ _ _ R) as [I1 [_ [I3 _]]]. split; [apply I3; assumption|].
+    intro Hb. unfold none_enabled in I1. rewrite Forall_forall in I1. specialize (I1 (id, f) Hb). cbn in I1. congruence.
+  - inversion W; subst; clear W. cbn in He.
+    rewrite (no_missed_wakeup _ _ _ _ f G Ht HA Hd) in He. discriminate.
+Qed.
+
+(* whatever a WaitNotices call returns is non-empty and consists of notices matching its filter *)
+Lemma wstep_sound : forall s e o s' id f l,
+  wstep s e = (o, s') -> In (WReturned id f l) o -> l <> [] /\ forall n, In n l -> matches f n = true.
+Proof.
+  assert (P : forall st f, wait_enabled st f = true -> notices st f <> [] /\ forall n, In n (notices st f) -> matches f n = true).
+  { intros st f E. split.
+    - unfold wait_enabled in E. destruct (notices st f); [discriminate | discriminate].
+    - intros n Hn. unfold notices in Hn. apply (proj1 (sort_lr_in _ _)) in Hn. apply filter_In in Hn. tauto. }
+  assert (Q : forall st bl o b x id f l, recheck st bl = (o, b) -> In x o -> x = WReturned id f l ->
+              l <> [] /\ forall n, In n l -> matches f n = true).
+  { intros st bl o b x id f l R Hx ->. destruct (recheck_spec _ _ _ _ R) as [_ [_ [_ I4]]].
+    destruct (I4 _ Hx) as [id' [f' [E [_ He]]]]. inversion E; subst. apply P. exact He. }
+  intros s e o s' id f l H Hin. destruct e as [a|wid wf|wid|]; cbn [wstep] in H.
+  - destruct (add_notice (w_state s) a) as [[[st' flag] nid]|]; [|inversion H; subst; contradiction].
+    destruct flag; [|inversion H; subst; contradiction].
+    destruct (recheck st' (w_blocked s)) as [o' b'] eqn:R. inversion H; subst. eapply Q; [exact R | exact Hin | reflexivity].
+  - destruct (wait_enabled (w_state s) wf) eqn:E; inversion H; subst; [|contradiction].
+    destruct Hin as [Heq|[]]. inversion Heq; subst. apply P. exact E.
+  - destruct (is_blocked wid (w_blocked s)); [|inversion H; subst; contradiction].
+    destruct (recheck (w_state s) _) as [o' b'] eqn:R. inversion H; subst.
+    destruct Hin as [Heq|Hin]; [discriminate|]. eapply Q; [exact R | exact Hin | reflexivity].
+  - inversion H; subst. contradiction.
+Qed.
+
+Theorem wait_returns_sound : forall evs s o s' id f l,
+  wrun s evs = (o, s') -> In (WReturned id f l) o -> l <> [] /\ forall n, In n l -> matches f n = true.
+Proof.
+  induction evs as [|e evs IH]; intros s o s' id f l H Hin; cbn in H; [inversion H; subst; contradiction|].
+  destruct (wstep s e) as [o1 s1] eqn:W. destruct (wrun s1 evs) as [o2 s2] eqn:R. inversion H; subst; clear H.
+  apply in_app_iff in Hin. destruct Hin as [Hin|Hin]; [eapply wstep_sound; eassumption | eapply IH; eassumption].
+Qed.
+
+(* a call with an already matching notice never blocks *)
+Theorem wait_returns_at_once : forall s id f,
+  wait_enabled (w_state s) f = true -> wstep s (WWait id f) = ([WReturned id f (notices (w_state s) f)], s).
+Proof. intros s id f E. cbn. rewrite E. reflexivity. Qed.
